@@ -153,6 +153,9 @@ class ParametricTransform:
         copy = shallow_copy(self)
         if callable(params):
             delattr(copy, "p")
+            if "params" in copy._modules:
+                # Module.__setattr__ refuses to replace a registered module by a tensor
+                delattr(copy, "params")
         if isinstance(params, Parameter) and not isinstance(arg, Parameter):
             copy.params = Parameter(arg, params.requires_grad)
         else:
